@@ -44,7 +44,7 @@ META = dict(
          "that run out of time / memory are counted as resource exhaustion, not decided.",
     design_ref="DESIGN.md §3 C37")
 
-CPU_LIMIT = 25.0        # CPU-seconds one document may use before it is declared a hang (normal documents: milliseconds)
+CPU_LIMIT = 25.0        # CPU-seconds one document may use before it is declared a hang (quick: 8; normal documents: milliseconds)
 
 
 def asan_env():
@@ -87,34 +87,86 @@ def report_key(stderr):
     return kind + (" in " + " <- ".join(frames) if frames else "")
 
 
-class Runner:
-    """Feeds documents to worker processes of the given variant; returns {id: (outcome, message)}."""
+class Server:
+    """One fork server (worker process with the library loaded)."""
 
-    def __init__(self, variant, nproc, tmp):
+    def __init__(self, variant, env, tmp, k):
+        self.base = os.path.join(tmp, "s%d_%d" % (os.getpid(), k))
+        self.p = subprocess.Popen(["/venv/bin/python", "-m", "mc.checks._c37_worker", variant], env=env, cwd=core.VERIF,
+                                  stdin=subprocess.PIPE, stdout=subprocess.PIPE, stderr=open(self.base + ".boot", "w"), text=True, bufsize=1)
+        self.job = None
+        self.ready = False
+        self.n = 0
+        os.set_blocking(self.p.stdout.fileno(), False)
+        self.buf = ""
+
+    def lines(self):
+        try:
+            d = self.p.stdout.read()
+        except (BlockingIOError, TypeError):
+            d = None
+        if d:
+            self.buf += d
+        out = []
+        while "\n" in self.buf:
+            l, self.buf = self.buf.split("\n", 1)
+            out.append(l)
+        return out
+
+    def start(self, docs):
+        self.n += 1
+        b = "%s_%d" % (self.base, self.n)
+        with open(b + ".in", "w") as fh:
+            for i, x in docs:
+                fh.write(json.dumps({"i": i, "x": x}) + "\n")
+        with open(b + ".prog", "w") as fh:
+            fh.write("%-12d" % -2)
+        self.job = dict(b=b, docs=docs, pid=None, cur=None, cpu0=None, status=None)
+        self.p.stdin.write("RUN %s.in %s.out %s.prog %s.err\n" % (b, b, b, b))
+        self.p.stdin.flush()
+
+    def quit(self):
+        try:
+            self.p.stdin.write("QUIT\n")
+            self.p.stdin.flush()
+            self.p.wait(timeout=10)
+        except Exception:
+            self.p.kill()
+
+
+class Runner:
+    """Feeds documents to fork servers; a crashing document costs one fork.  Returns ({id: (outcome, msg)}, {id: crash})."""
+
+    def __init__(self, variant, nproc, tmp, cpu_limit):
         self.variant = variant
         self.nproc = nproc
         self.tmp = tmp
+        self.cpu_limit = cpu_limit
         self.env = asan_env() if variant == "asan" else dict(os.environ)
         self.env["C37_ASAN_LIB"] = os.environ.get("C37_ASAN_LIB", "")
         self.nspawn = 0
+        self.servers = [Server(variant, self.env, tmp, k) for k in range(nproc)]
+        t0 = time.time()
+        while not all(s.ready for s in self.servers):
+            for s in self.servers:
+                if not s.ready:
+                    if any(l == "READY" for l in s.lines()):
+                        s.ready = True
+                    elif s.p.poll() is not None:
+                        raise RuntimeError("C37 worker could not start: " + open(s.base + ".boot").read()[-800:])
+            time.sleep(0.1)
+            if time.time() - t0 > 1800:
+                raise RuntimeError("C37 workers did not become ready")
 
-    def _spawn(self, docs):
-        self.nspawn += 1
-        base = os.path.join(self.tmp, "b%d_%d" % (os.getpid(), self.nspawn))
-        with open(base + ".in", "w") as fh:
-            for i, x in docs:
-                fh.write(json.dumps({"i": i, "x": x}) + "\n")
-        with open(base + ".prog", "w") as fh:
-            fh.write("%-12d" % -2)
-        errf = open(base + ".err", "w")
-        p = subprocess.Popen(["/venv/bin/python", "-m", "mc.checks._c37_worker", self.variant, base + ".in", base + ".out", base + ".prog"],
-                             env=self.env, cwd=core.VERIF, stdout=subprocess.DEVNULL, stderr=errf)
-        return dict(p=p, base=base, docs=docs, errf=errf, cur=None, cpu0=None, t0=time.time())
+    def close(self):
+        for s in self.servers:
+            s.quit()
 
-    def _collect(self, w, results):
+    @staticmethod
+    def _collect(job, results):
         done = set()
         try:
-            with open(w["base"] + ".out") as fh:
+            with open(job["b"] + ".out") as fh:
                 for line in fh:
                     try:
                         d = json.loads(line)
@@ -126,79 +178,106 @@ class Runner:
             pass
         return done
 
-    def run(self, docs, single=False):
-        """docs: list of (id, text).  Crashes are attributed to the document in progress and confirmed by a single re-run."""
-        results = {}
-        crashes = {}
+    def run(self, docs, group=None, max_crashes_per_group=6):
+        """group: {id: base document name}.  After max_crashes_per_group confirmed crashes of one base document its
+        remaining deviations are not evaluated (returned in self.skipped): such a base crashes on nearly any variation
+        and every crash costs two forks."""
+        results, crashes = {}, {}
+        self.skipped = []
+        gcount = {}
+        group = group or {}
+        t_last = time.time()
         if not docs:
             return results, crashes
-        n = self.nproc if not single else min(self.nproc, len(docs))
-        per = max(1, min(4000, -(-len(docs) // (n * 2)))) if not single else 1
-        queue = [docs[k:k + per] for k in range(0, len(docs), per)]
-        live = []
-        while queue or live:
-            while queue and len(live) < n:
-                live.append(self._spawn(queue.pop(0)))
-            time.sleep(0.05)
-            for w in list(live):
-                rc = w["p"].poll()
+        per = max(1, min(2000, -(-len(docs) // (self.nproc * 3))))
+        queue = [("batch", docs[k:k + per]) for k in range(0, len(docs), per)]
+        pending_confirm = {}
+        busy = 0
+        while queue or any(s.job for s in self.servers):
+            if time.time() - t_last > 60:
+                t_last = time.time()
+                import sys
+                sys.stderr.write("C37: %d results, %d crashes, %d queued batches, %d skipped\n" % (len(results), len(crashes), len(queue), len(self.skipped)))
+            for s in self.servers:
+                if s.job is None and queue:
+                    kind, d = queue.pop(0)
+                    keep = [x for x in d if gcount.get(group.get(x[0]), 0) < max_crashes_per_group or kind == "single"]
+                    self.skipped += [x[0] for x in d if x not in keep]
+                    d = keep
+                    if not d:
+                        continue
+                    s.start(d)
+                    s.job["kind"] = kind
+                    self.nspawn += 1
+            time.sleep(0.02)
+            for s in self.servers:
+                job = s.job
+                if job is None:
+                    continue
+                for l in s.lines():
+                    if l.startswith("PID "):
+                        job["pid"] = int(l.split()[1])
+                    elif l.startswith("EXIT "):
+                        job["status"] = int(l.split()[1])
+                if s.p.poll() is not None:
+                    raise RuntimeError("C37 fork server died: " + open(s.base + ".boot").read()[-800:])
                 try:
-                    cur = int(open(w["base"] + ".prog").read().strip() or -2)
+                    cur = int(open(job["b"] + ".prog").read().strip() or -2)
                 except (OSError, ValueError):
                     cur = -2
-                if rc is None:
-                    cpu = cpu_seconds(w["p"].pid)
-                    if cur != w["cur"]:
-                        w["cur"], w["cpu0"] = cur, cpu
-                        continue
-                    elif cpu is not None and w["cpu0"] is not None and cur >= 0 and cpu - w["cpu0"] > CPU_LIMIT:
-                        w["p"].kill()
-                        w["p"].wait()
-                        rc = "hang"
-                    else:
-                        continue
-                live.remove(w)
-                w["errf"].close()
-                done = self._collect(w, results)
-                ids = [i for i, _ in w["docs"]]
-                if rc == 0 and len(done) == len(ids):
-                    self._cleanup(w)
+                hang = False
+                if job["status"] is None:
+                    if job["pid"]:
+                        cpu = cpu_seconds(job["pid"])
+                        if cur != job["cur"]:
+                            job["cur"], job["cpu0"] = cur, cpu
+                        elif cpu is not None and job["cpu0"] is not None and cur >= 0 and cpu - job["cpu0"] > self.cpu_limit:
+                            try:
+                                os.kill(job["pid"], 9)
+                            except OSError:
+                                pass
+                            job["hang"] = True
                     continue
-                # died: culprit = document in progress
+                # child finished
+                s.job = None
+                done = self._collect(job, results)
+                ids = [i for i, _ in job["docs"]]
+                status = job["status"]
+                if status == 0 and len(done) == len(ids):
+                    self._cleanup(job)
+                    continue
                 try:
-                    stderr = open(w["base"] + ".err", errors="replace").read()[-20000:]
+                    stderr = open(job["b"] + ".err", errors="replace").read()[-20000:]
                 except OSError:
                     stderr = ""
+                rc = "hang" if job.get("hang") else (("signal %d" % (status & 0x7f)) if status & 0x7f else "exit %d" % (status >> 8))
                 culprit = cur if cur in ids and cur not in done else None
+                rest = [d for d in job["docs"] if d[0] not in done and d[0] != culprit]
                 if culprit is None:
-                    rest = [d for d in w["docs"] if d[0] not in done]
-                    if rest and rc != 0 and not stderr.strip() and len(rest) == len(w["docs"]):
-                        raise RuntimeError("C37 worker could not start (rc=%s): %s" % (rc, stderr[-500:]))
-                    if rest:
-                        queue.insert(0, rest)
-                    self._cleanup(w)
-                    continue
-                info = dict(rc=rc, stderr=stderr, batch=len(ids))
-                if not single and len(ids) > 1:
-                    # confirm alone in a fresh process
-                    xml = dict(w["docs"])[culprit]
-                    r1, c1 = self.run([(culprit, xml)], single=True)
-                    if culprit in c1:
-                        crashes[culprit] = dict(c1[culprit], confirmed_single=True)
-                    else:
-                        crashes[culprit] = dict(info, confirmed_single=False, single_outcome=r1.get(culprit))
+                    if len(rest) == len(job["docs"]):
+                        raise RuntimeError("C37 batch made no progress (%s): %s" % (rc, stderr[-600:]))
+                elif job["kind"] == "batch" and len(ids) > 1:
+                    pending_confirm[culprit] = dict(rc=rc, stderr=stderr)
+                    queue.insert(0, ("single", [(culprit, dict(job["docs"])[culprit])]))
                 else:
-                    crashes[culprit] = dict(info, confirmed_single=True)
-                rest = [d for d in w["docs"] if d[0] not in done and d[0] != culprit]
+                    first = pending_confirm.pop(culprit, None)
+                    crashes[culprit] = dict(rc=rc, stderr=stderr, confirmed_single=True)
+                    g = group.get(culprit)
+                    gcount[g] = gcount.get(g, 0) + 1
                 if rest:
-                    queue.insert(0, rest)
-                self._cleanup(w)
+                    queue.insert(0, ("batch", rest))
+                self._cleanup(job)
+        # crashes seen in a batch that did not reproduce alone
+        for c, info in pending_confirm.items():
+            if c not in crashes:
+                crashes[c] = dict(info, confirmed_single=False, single_outcome=results.get(c))
         return results, crashes
 
-    def _cleanup(self, w):
+    @staticmethod
+    def _cleanup(job):
         for ext in (".in", ".out", ".prog", ".err"):
             try:
-                os.unlink(w["base"] + ext)
+                os.unlink(job["b"] + ext)
             except OSError:
                 pass
 
@@ -294,7 +373,7 @@ def run(ctx):
             rn = all_tags
         else:
             rn = sorted({n.tag for n in base.nodes()} | {"body", "geom", "default", "plugin", "frame", "include"})
-        for kind, desc, hk, xml in D.elem_deviations(base, it["path"], rn, reparent=True):
+        for kind, desc, hk, xml in D.elem_deviations(base, it["path"], rn, reparent=True, only=None if ctx.thorough else it["path"]):
             add(kind, desc, it["name"], hk, xml)
         if len(it["xml"]) <= 2048 and (ctx.thorough or ci % 6 == ctx.seed % 6 or ci % 6 == 0):
             ntrunc_docs += 1
@@ -308,7 +387,7 @@ def run(ctx):
         for desc, xml, exp in D.typed_docs(it):
             add("schema-type", desc, it["name"], None, xml, exp)
     # shipped small MJCF and URDF
-    extra = [("urdf %d" % i, t) for i, t in enumerate(D.urdf_corpus())] + D.shipped_small(2000, ctx.q(12, 60))
+    extra = [("urdf %d" % i, t) for i, t in enumerate(D.urdf_corpus())] + D.shipped_small(2000, ctx.q(8, 60))
     for name, text in extra:
         add("valid", "shipped", name, None, text, None)
         try:
@@ -316,7 +395,7 @@ def run(ctx):
         except Exception:
             continue
         attrs_here = []
-        for kind, desc, hk, xml in D.attr_deviations(base, [], attrs_here, hostile, all_nodes=True):
+        for kind, desc, hk, xml in D.attr_deviations(base, [], attrs_here, hostile if ctx.thorough else hostile[:3], all_nodes=True):
             add(kind, desc, name, hk, xml)
         for kind, desc, hk, xml in D.elem_deviations(base, [], sorted({n.tag for n in base.nodes()} | {"mujoco", "robot", "body", "geom"}),
                                                     reparent=ctx.thorough or len(base.nodes()) <= 12):
@@ -343,15 +422,30 @@ def run(ctx):
     # de-duplicate identical texts (keep first meta)
     index = {}
     uniq = []
+    also = {}          # first id -> other ids with the same text (their expectations are judged too)
     for k, x in enumerate(docs):
         if x not in index:
-            index[x] = len(uniq)
+            index[x] = k
             uniq.append((k, x))
+        else:
+            also.setdefault(index[x], []).append(k)
+    import collections
+    import sys
+    bykind = collections.Counter(meta[k][0] for k, _ in uniq)
+    ctx.extra["documents_by_kind"] = dict(bykind)
+    sys.stderr.write("C37: %d distinct documents: %s\n" % (len(uniq), dict(bykind)))
     r = ctx.seed % max(1, len(uniq))
     order = uniq[r:] + uniq[:r]
-    runner = Runner("asan", min(core.NCPU, 16), tmp)
-    results, crashes = runner.run(order)
+    runner = Runner("asan", min(core.NCPU, 16), tmp, ctx.q(8.0, CPU_LIMIT))
+    try:
+        results, crashes = runner.run(order, group={k: meta[k][2] for k, _ in uniq})
+    finally:
+        runner.close()
     # ---------------------------------------------------------- judge
+    skipped = set(runner.skipped)
+    if skipped:
+        ctx.exhaustive = False
+    ctx.extra["documents_skipped_after_repeated_crashes_of_their_base"] = len(skipped)
     outcomes = {}
     nschema = 0
     for k, x in uniq:
@@ -366,10 +460,12 @@ def run(ctx):
                     ctx.extra["resource_exhaustion_on_huge_values"] = ctx.extra.get("resource_exhaustion_on_huge_values", 0) + 1
                     ctx.count(1)
                     continue
-                key = ("hang (> %.0f CPU-s, memory growing)" % CPU_LIMIT if rc == "hang" else "memory exhaustion") + " on " + re.sub(r"=\w+$", "", "%s %s" % (kind, desc))
+                key = ("hang (CPU limit exceeded)" if rc == "hang" else "memory exhaustion") + " on " + hang_desc(kind, desc, base)
             ctx.count(1, key=("crash", key))
             ctx.violation("crash: " + key, "%s: worker died (rc=%s, reproduced alone=%s): %s" % (ident, rc, c.get("confirmed_single"), key),
                           {"xml": x, "rc": str(rc), "stderr_tail": c.get("stderr", "")[-3000:]})
+            continue
+        if k in skipped:
             continue
         if k not in results:
             raise RuntimeError("no result for document %d (%s)" % (k, ident))
@@ -385,16 +481,26 @@ def run(ctx):
                           "%s: %s" % (ident, m), {"xml": x})
         elif o == "exception":
             ctx.violation("C++ exception escapes the C API (std::terminate for a C client): " + m[:100], "%s: %s" % (ident, m), {"xml": x})
-        if expect is not None:
+        for kk in [k] + also.get(k, []):
+          kind, desc, base, hk, expect = meta[kk]
+          ident = "%s | %s %s" % (base, kind, desc)
+          if expect is not None:
             nschema += 1
             rejected = o in ("perror", "cerror", "perror0", "cerror0")
+            el = base.split("/")[1].split("[")[0] if "/" in base else base
+            par = base.split("/")[0]
+            where = ("[default]" if "[default]" in base else "") + (" inside <%s>" % par if par in ("frame", "replicate") else "")
             if expect == "accept" and o != "model":
                 ctx.violation("corpus document rejected: " + base, "%s: %s %s" % (ident, o, m), {"xml": x})
             elif expect == "reject" and o == "model":
-                ctx.violation("schema violation accepted: %s[%s] %s" % (meta[k][2].split("/")[1].split("[")[0], "default" if "[default]" in base else "main", schema_desc(desc)),
-                              "%s: the document violates mjcf.schema but a model was returned" % ident, {"xml": x})
+                if par in ("frame", "replicate") or el in ("frame", "replicate"):
+                    ctx.violation("schema violation accepted: nothing below <frame>/<replicate> is validated (mjXSchema::Check only recurses into <body>)",
+                                  "%s: the document violates mjcf.schema but a model was returned" % ident, {"xml": x})
+                else:
+                    ctx.violation("schema violation accepted: %s%s %s" % (el, where, schema_desc(desc)),
+                                  "%s: the document violates mjcf.schema but a model was returned" % ident, {"xml": x})
             elif expect == "noschema" and rejected and D.SCHEMA_MSG.search(m):
-                ctx.violation("conforming document rejected for a schema reason: %s %s: %s" % (base.split("/")[1].split("[")[0], schema_desc(desc), norm(m)),
+                ctx.violation("conforming document rejected for a schema reason: %s%s %s: %s" % (el, where, schema_desc(desc), norm(m)),
                               "%s: conforms to mjcf.schema but was rejected with: %s" % (ident, m), {"xml": x})
     ctx.extra.update(corpus_documents=len(corpus), edges_without_corpus=nocorpus, documents_generated=len(docs), documents_distinct=len(uniq),
                      outcomes=outcomes, schema_expectation_documents=nschema, truncated_corpus_documents=ntrunc_docs,
@@ -409,9 +515,15 @@ def run(ctx):
     ctx.assumptions = ["ASan+UBSan build of the tree (mjUSEASAN arena poisoning active); one process per batch, culprit confirmed alone",
                        "XML well-formedness is expat's (shim); truncation documents mostly exercise that layer",
                        "documents that ask for unbounded resources through INT_MAX-like values and run out of CPU (%.0f s) or memory are "
-                       "counted (resource_exhaustion_on_huge_values), not decided" % CPU_LIMIT]
+                       "counted (resource_exhaustion_on_huge_values), not decided" % ctx.q(8.0, CPU_LIMIT)]
     if not ctx.thorough:
         ctx.exhaustive = False
+
+
+def hang_desc(kind, desc, base):
+    """Root-cause oriented name of a hanging document: the element of the corpus document + the deviating attribute."""
+    el = base.split("/")[1].split("[")[0] if "/" in base else base
+    return "%s %s (%s)" % (el, re.sub(r"=\w+$", "", desc), kind)
 
 
 def itertools_combinations(names):
